@@ -245,6 +245,18 @@ def body_assign_dtype(case, ctx):
         for row, vr in zip(cells, vrows):
             for (i, j), v in zip(row, vr):
                 exp[i][j] = v
+    SIB = {"float64": "int64", "float32": "int32", "int64": "float64", "int32": "float32", "int8": "uint8", "uint8": "int8", "int16": "uint16",
+           "uint16": "int16", "uint32": "int32", "uint64": "int64"}
+    if case.get("vsib") and kind in ("flat", "column") and dt in SIB and isinstance(value, np.ndarray) and value.size:
+        # the same numbers handed over in another element type of the same width (int64 values into a float64 array ...):
+        # they are assigned by value, as numpy does
+        with np.errstate(all="ignore"):
+            sib = value.astype(SIB[dt])
+            exact = bool(np.all(np.isfinite(value.astype(np.float64)))) and bool(np.all(sib.astype(dt) == value)) and \
+                bool(np.all(sib.astype(np.float64) == value.astype(np.float64)))
+        if exact:
+            value = sib
+            ctx.label("value-dtype:same-width-other-kind")
     ctx.nt(0 < len(flat) and dt != "int64")
     out = lib(ra.__setitem__, idx, value)
     if not out.ok:
@@ -266,10 +278,15 @@ def assign_dtype_case(draw, tier):
     a = draw(gen.ragged(tier, dts=[dt]))
     n = len(a["lens"])
     L = max(a["lens"]) if a["lens"] else 0
+    vsib = draw(st.integers(0, 3)) == 0
     e = st.sampled_from(WIDE[dt]) if dt in WIDE else gen.elem(dt)
+    if vsib:
+        e = st.integers(0, 100) if dt != "bool" else st.booleans()      # numbers every sibling type holds exactly
+        if dt.startswith("float"):
+            e = e.map(float)
     return {"a": a, "r": draw(gen.rowsel(n, norepeat=True)), "c": draw(gen.colsel(L)),
             "vk": draw(st.sampled_from(["scalar", "flat", "column", "column", "ragged"])),
-            "pool": draw(st.lists(e, min_size=1, max_size=6)),
+            "pool": draw(st.lists(e, min_size=1, max_size=6)), "vsib": vsib,
             "tlazy": draw(st.sampled_from(LAZY_CHOICES)), "vlazy": draw(st.sampled_from([0, 0, 1, 2]))}
 
 
